@@ -144,6 +144,39 @@ package samlsp
 //@ assert@call[C17] io.ReadFull #1 (r io.Reader, buf []byte) uses rv []byte fills_all_from_configured_source:
 //@    r == saml.RandReader && sameBytes(buf, rv) && len(buf) == n
 
+//@ -- the default service provider: options are passed through unchanged; requests are signed exactly when asked, with the
+//@ -- method that fits the key type (RSA key: an RSA method, ECDSA key: an ECDSA method, no key: none)
+//@ import rsa "crypto/rsa"
+//@ import ecdsa "crypto/ecdsa"
+//@ import crypto "crypto"
+//@ go func isRSAKey(k crypto.Signer) bool { _, ok := k.(*rsa.PrivateKey); return ok }
+//@ go func isECDSAKey(k crypto.Signer) bool { _, ok := k.(*ecdsa.PrivateKey); return ok }
+//@ contract defaultSigningMethodForKey
+//@ ensures[C13] fits_key: (isRSAKey(key) ==> result == dsig.RSASHA1SignatureMethod) && (isECDSAKey(key) ==> result == dsig.ECDSASHA256SignatureMethod) &&
+//@    (key == nil ==> result == "")
+//@ contract DefaultServiceProvider
+//@ ensures[C13] signing: (!opts.SignRequest ==> result.SignatureMethod == "") &&
+//@    (opts.SignRequest && isRSAKey(opts.Key) ==> result.SignatureMethod == dsig.RSASHA1SignatureMethod) &&
+//@    (opts.SignRequest && isECDSAKey(opts.Key) ==> result.SignatureMethod == dsig.ECDSASHA256SignatureMethod) &&
+//@    result.Key == opts.Key && result.Certificate == opts.Certificate
+//@ ensures[C17,C04] passthrough: result.AllowIDPInitiated == opts.AllowIDPInitiated && result.IDPMetadata == opts.IDPMetadata &&
+//@    result.EntityID == opts.EntityID && (opts.DefaultRedirectURI != "" ==> result.DefaultRedirectURI == opts.DefaultRedirectURI) &&
+//@    (opts.DefaultRedirectURI == "" ==> result.DefaultRedirectURI == "/")
+//@ ensures[C12] force_authn: (result.ForceAuthn != nil) == opts.ForceAuthn && result.RequestedAuthnContext == opts.RequestedAuthnContext
+
+//@ -- the tracking cookie that is cleared is the one named by the index, on the ACS path
+//@ contract (CookieRequestTracker).StopTrackingRequest
+//@ requires[cfg] r: r != nil && w != nil && t.ServiceProvider != nil
+//@ assert@call[C17] Cookie #1 (rq *http.Request, name string) looks_up_named_cookie: rq == r && name == t.NamePrefix+index
+//@ assert@call[C17] SetCookie #1 (w2 http.ResponseWriter, ck *http.Cookie) uses cookie *http.Cookie clears_that_cookie:
+//@    ck == cookie && ck != nil && ck.Value == "" && ck.Path == t.ServiceProvider.AcsURL.Path && ck.Name == t.NamePrefix+index
+
+//@ -- routing: the assertion consumer runs only for the ACS path, the metadata handler only for the metadata path
+//@ contract (*Middleware).ServeHTTP
+//@ requires[cfg] r: r != nil && r.URL != nil && w != nil
+//@ assert@call[C17] ServeACS #1 (mm *Middleware, w2 http.ResponseWriter, r2 *http.Request) acs_path_only: r2 == r && r.URL.Path == m.ServiceProvider.AcsURL.Path
+//@ assert@call[C17] ServeMetadata #1 (mm *Middleware, w2 http.ResponseWriter, r2 *http.Request) metadata_path_only: r2 == r && r.URL.Path == m.ServiceProvider.MetadataURL.Path
+
 //@ -- starting a flow: the request is built for the binding it is then emitted with (POST-binding requests are the ones the
 //@ -- core signs envelopedly, redirects are signed over the query), towards that binding's endpoint; the tracked ID is the
 //@ -- request's; the relay state handed to the emitter is the tracker's
